@@ -5,6 +5,7 @@ package fees
 
 import (
 	"encoding/binary"
+	"math/bits"
 	"sync"
 
 	"github.com/ava-labs/avalanchego/utils/math"
@@ -224,8 +225,7 @@ func computeNextPriceWindow(
 	if total > target {
 		// If the parent block used more units than its target, the baseFee should increase.
 		delta := total - target
-		x := previousPrice * delta
-		y := x / target
+		y := mulDiv(previousPrice, delta, target)
 		baseDelta := y / changeDenom
 		if baseDelta < 1 {
 			baseDelta = 1
@@ -239,8 +239,7 @@ func computeNextPriceWindow(
 	} else if total < target {
 		// Otherwise if the parent block used less units than its target, the baseFee should decrease.
 		delta := target - total
-		x := previousPrice * delta
-		y := x / target
+		y := mulDiv(previousPrice, delta, target)
 		baseDelta := y / changeDenom
 		if baseDelta < 1 {
 			baseDelta = 1
@@ -252,7 +251,11 @@ func computeNextPriceWindow(
 		// that has elapsed between the parent and this block.
 		if since > window.WindowSize {
 			// Note: roll/rollupWindow must be greater than 1 since we've checked that roll > rollupWindow
-			baseDelta *= since / window.WindowSize
+			scaled, over := math.Mul(baseDelta, since/window.WindowSize)
+			if over != nil {
+				scaled = consts.MaxUint64
+			}
+			baseDelta = scaled
 		}
 		n, under := math.Sub(nextPrice, baseDelta)
 		if under != nil {
@@ -265,6 +268,17 @@ func computeNextPriceWindow(
 		nextPrice = minPrice
 	}
 	return nextPrice, newRollupWindow
+}
+
+// mulDiv returns floor(a*b/c) computed without intermediate overflow and
+// saturating at the maximum uint64 value. [c] must be non-zero.
+func mulDiv(a, b, c uint64) uint64 {
+	hi, lo := bits.Mul64(a, b)
+	if hi >= c {
+		return consts.MaxUint64
+	}
+	q, _ := bits.Div64(hi, lo, c)
+	return q
 }
 
 type Rules interface {
